@@ -55,6 +55,8 @@ package snacl
 //@   ensures digest_gate: err == nil ==> sha256B(bytes(sk.Key)) == bytes(sk.Parameters.Digest)
 //@       && bytes(sk.Key) == scryptB(old(bytes(deref(password))), old(bytes(sk.Parameters.Salt)), old(sk.Parameters.N), old(sk.Parameters.R), old(sk.Parameters.P), 32)
 //@   ensures mismatch_rejected: sha256B(bytes(sk.Key)) != bytes(sk.Parameters.Digest) ==> err != nil
+//@   ensures params_untouched: bytes(sk.Parameters.Salt) == old(bytes(sk.Parameters.Salt)) && bytes(sk.Parameters.Digest) == old(bytes(sk.Parameters.Digest))
+//@       && sk.Parameters.N == old(sk.Parameters.N) && sk.Parameters.R == old(sk.Parameters.R) && sk.Parameters.P == old(sk.Parameters.P) && sk.Key == old(sk.Key)
 
 // Marshal: 32 bytes salt, 32 bytes digest, N, R, P as little-endian uint64.
 //@ func (*SecretKey).Marshal(sk) (r)
